@@ -6,6 +6,11 @@ HERE = os.path.dirname(os.path.dirname(os.path.abspath(__file__)))
 ALL = ["C%02d" % i for i in range(1, 21)]
 
 CLAIMED = {
+ "C01": dict(
+   technique="TLA+ models IterSolve.tla (solve pipeline and Krylov loop skeleton) and SolveShape.tla/Bcast.tla (output-shape table) checked exhaustively by TLC; executions recorded through the krylov.* hooks and the API boundary validated by TLC against Trace_IterSolve.tla with numeric verdicts in the final event; the whole shape table replayed on the real solve",
+   text="TLC checks for every method x {E absent, present} x zero/non-zero right-hand side and every choice of per-iterate (passed, improved) flags within the budget: the result is handed back in the caller's layout, a warning is raised iff no iterate passed every column's threshold, a silent return hands back an iterate that passed, the budget is respected; three deviation switches (layout not restored by gmres, best-by-maximum instead of the iterate that passed, lost warning) are caught. ~1300 (quick) real executions over 6 methods x {no E, E, E+M, M only} x {SPD, indefinite Hermitian, non-Hermitian with prescribed singular values} x {dense, mv-only, mv+rmv, sums, Jacobian operators} x {float64, complex128} x batch patterns x zero RHS x tight budgets must be behaviours of the model (hook events bind k, hit, improved, which iterate is returned, layout flags) and carry the verdicts: shape = broadcast, dtype kept, true residual of AX - MXE = B within the stated bound, agreement with an independent dense column-by-column solution, silence where the property demands it. The complete broadcast table of (A, B, E, M) batch shapes (TLC-enumerated) is replayed on exactsolve, cg and bicgstab incl. the zero-RHS shortcut.",
+   design_ref="5.5, 6 (C01)",
+   note="Trusted: TLC/SANY, hooks krylov.iter/best/ret, torch.linalg.solve as dense reference, the residual bound stated in the evidence (derived from the prescribed singular values, slack 10). broyden1's own loop is covered by C03's RootLoop model. Counting-operator budgets are not asserted."),
  "C16": dict(
    technique="TLA+ model McChain.tla of the burn-in/collect protocol of the three samplers and of the backward pass, checked exhaustively by TLC; call sequences of real mcquad runs recorded at the API boundary (log_pfcn, custom_step, integrand wrappers; deterministic step makes chain positions observable) validated by TLC against Trace_McChain.tla with numeric verdicts in the final event",
    text="TLC explores all (sampler, nsamples <= 4, nburnout <= 4) and checks: exactly nsamples recorded positions, first one after >= nburnout steps, consecutive positions continuing the burned-in chain, integrand evaluated on exactly the recorded positions, backward on the same positions; four deviation switches (restart from x0, wrong count, short burn-in, resampling in backward) are caught. ~110 (quick) real runs over samplers x (nsamples, nburnout) x explicit/object-held parameters x tuple outputs must be behaviours of the model with positions bound, and their final event must carry: value = weighted mean on the observed points, weights sum to one, dummy1d nodes/weights as documented, first- and second-order gradients equal to those of the self-normalised surrogate (score-function estimator) on the same points, zero/absent gradient for unused tensors without error, backward evaluated on the forward samples; plus constant integrand, linearity, mh statistics at 6 sigma.",
@@ -42,7 +47,7 @@ CLAIMED = {
    design_ref="5.3, 6 (C20)",
    note="Trusted: TLC/SANY, the projection functions of harness/props/c20.py (independent traversal, identity comparison), bounds of MC_Packer*.cfg. Containers shared between two positions are outside the model."),
 }
-HOOK_COMMITS = ["b53e553", "860e24d", "586f68a"]
+HOOK_COMMITS = ["b53e553", "860e24d", "586f68a", "d76150b", "bff9807"]
 
 
 def main():
